@@ -283,6 +283,13 @@ func getAffinityKeysFromMessage(
 	locator string,
 	msg interface{},
 ) (affinityKeys []string, err error) {
+	// Reflection can panic on message shapes the traversal does not anticipate (e.g. a field
+	// promoted through a nil embedded pointer): report an error instead of crashing the RPC.
+	defer func() {
+		if r := recover(); r != nil {
+			affinityKeys, err = nil, fmt.Errorf("cannot get affinity key by %q: %v", locator, r)
+		}
+	}()
 	names := strings.Split(locator, ".")
 	if len(names) == 0 {
 		return nil, fmt.Errorf("empty affinityKey locator")
